@@ -52,3 +52,8 @@ example : (runLabels init [.setTimeout, .setInterval, .setImmediate, .clear 1, .
     .deliverLive 0, .istop 1, .deliverRemove 1]).map (·.jobCount) = some 0 := by decide +kernel
 
 end GN.Props.C06
+
+/-! ## Progress clauses
+
+Proved in `GN/EventLoop/Progress.lean` (audited with this property): progress: at quiescence (live count 0) no live step is enabled and nothing fires any more while the loop's exit is enabled and never blocked; with a non-zero count some live job has an enabled step.
+Theorems: `GN.EventLoop.Progress.quiescent_nothing_fires`, `GN.EventLoop.Progress.quiescent_disables_live_steps`, `GN.EventLoop.Progress.live_work_is_enabled`, `GN.EventLoop.Progress.run_exit_never_blocked`, `GN.EventLoop.Progress.run_returns_at_quiescence`. -/
